@@ -216,7 +216,7 @@ func doCheck(id, tier string) int {
 				}
 			}
 			rf.TapeLen0 = len(rf.Tape)
-			path := filepath.Join(verifDir, "replays", fmt.Sprintf("%s-%s-seed%d-run%d.json", id, a.run.spec.name, seed, f.Idx))
+			path := filepath.Join(verifDir, "replays", fmt.Sprintf("%s-%s-seed%d-run%d-%s.json", id, a.run.spec.name, seed, f.Idx, classTag(k)))
 			os.MkdirAll(filepath.Dir(path), 0o755)
 			writeJSON(path, rf)
 			if len(rf.Tape) > 0 && rf.Note == "" && minimised < 3 {
@@ -334,6 +334,16 @@ func doCheck(id, tier string) int {
 	}
 	fmt.Printf("%s %s: %d runs, %d distinct non-trivial cases, %d violations, %.1fs\n", id, tier, evals, distinctNT, violations, wall)
 	return exit
+}
+
+// classTag: a short stable tag of the violation class, so that several classes found in one run
+// get separate replay files.
+func classTag(k classKey) string {
+	h := uint32(2166136261)
+	for _, c := range []byte(k.kind + "|" + k.site) {
+		h = (h ^ uint32(c)) * 16777619
+	}
+	return fmt.Sprintf("%s-%06x", k.kind, h&0xffffff)
 }
 
 func round1(x float64) float64 { return float64(int64(x*10+0.5)) / 10 }
